@@ -35,6 +35,8 @@ def cases(rng, tier):
         yield rvgen.sim_case(rng, "five", hazard=HAZARD, opts={"wide": i % 4 == 0}, trace=45, run=600, suite="sim-five")
     for i in range(n // 3):
         yield rvgen.chain_case(rng, "five", hazard=HAZARD, trace=30, run=300, dspec=rvgen.cache_spec(rng, "d", 0.3), suite="sim-five")
+    for i in range(n // 6):
+        yield rvgen.ecall_case(rng, "five", hazard=HAZARD, trace=40, run=300, dspec=rvgen.cache_spec(rng, "d", 0.3), suite="sim-five")
     if tier == "thorough":
         import itertools
         alpha = ["addi,1,0,0,5,0", "add,5,1,1,0,0", "lw,1,2,0,0,0", "sw,0,2,1,4,0", "beq,0,1,5,8,8", "jal,1,0,0,8,8",
